@@ -269,7 +269,7 @@ func (e *env) step(c *core.Case, spec *txgen.TxSpec, hist *[]*outcome) bool {
 	m.add(w.Coinbase, fee)
 	m.finish()
 	if len(m.problems) > 0 {
-		return fail("value-flow:"+strings.SplitN(m.problems[0], ":", 2)[0], m.problems[0], map[string]interface{}{"all": m.problems})
+		return fail("value-flow:"+m.problemKey, m.problems[0], map[string]interface{}{"all": m.problems})
 	}
 	for a := range m.touched {
 		e.names[addrHash(a)] = a
